@@ -1,5 +1,5 @@
 """C06: receiver set rules -- SET-ID, SET-DRAIN, SET-NONBLOCK, SET-CLOSE, SET-EINTR (unix), SET-ID / SET-REMOVE (in-process)."""
-from vlib.flow import Explorer, Tracer, edge_label, path_summaries
+from vlib.flow import Explorer, Expr, Tracer, edge_label, path_summaries
 from vlib.mir import callee_name, op_const, op_local, op_place, strip_generics
 from rules.send import _root_local
 
@@ -21,11 +21,33 @@ def rule_set_id(ctx, cfg, F, backend):
     tr = Tracer(add)
     nexts = [(b, t) for b, t in add.calls() if strip_generics(t.get("callee") or "") == "std::iter::Iterator::next"]
     counter_nexts = [(b, t) for b, t in nexts if any(r.kind == "param" and r.id == 1 and r.field_names() for r in tr.roots_of_operand(t["args"][0]))]
-    R.count("next_sites[%s]" % cfg, len(counter_nexts))
-    if len(counter_nexts) != 1:
-        R.violate("%s:counter-next-count" % add.path, "%d next() calls on the counter in add (expected 1)" % len(counter_nexts), add.path, add.loc(0), config=cfg)
+    cfield = None
+    if len(counter_nexts) == 1:
+        cfield = [r.field_names()[0] for r in tr.roots_of_operand(counter_nexts[0][1]["args"][0]) if r.kind == "param"][0]
+        R.count("next_sites[%s]" % cfg, 1)
+    elif not counter_nexts:
+        # plain integer counter: `id = self.f; self.f = self.f + c` with c >= 1
+        ex = Expr(add)
+        for b in sorted(add.live_blocks()):
+            for si, st in enumerate(add.stmts(b)):
+                if st["s"] == "assign" and st["lhs"]["l"] == 1 and st["lhs"].get("p") and st["lhs"]["p"][0] == "*":
+                    names = [e["n"] for e in st["lhs"]["p"] if isinstance(e, dict) and "f" in e]
+                    e = ex.of_rvalue(st["rv"], 0, b)
+                    if len(names) == 1 and e[0] == "bin" and e[1] == "Add" and e[3][0] == "const" and isinstance(e[3][1], int) and e[3][1] >= 1 and \
+                       e[2] == ("field", ("param", 1), e[2][2] if len(e[2]) > 2 else None, names[0]):
+                        cfield = names[0]
+        if cfield:
+            R.count("next_sites[%s]" % cfg, 1)
+    if cfield is None:
+        # say what the id is derived from instead
+        src = set()
+        for b in sorted(add.live_blocks()):
+            for st in add.stmts(b):
+                if st["s"] == "assign" and st["lhs"]["l"] == 0 and st["rv"]["r"] == "agg" and st["rv"]["kind"].get("variant") == "Ok":
+                    src |= {repr(r) for r in tr.roots_of_operand(st["rv"]["a"][0])}
+        R.violate("%s:id-not-from-monotone-counter" % add.path, "the id handed out by add does not come from a monotonically increasing counter of the set (it derives from %s): "
+                  "after a member is removed an id can be handed out twice while its first holder is still in the set" % sorted(src), add.path, add.loc(0), config=cfg)
         return
-    cfield = [r.field_names()[0] for r in tr.roots_of_operand(counter_nexts[0][1]["args"][0]) if r.kind == "param"][0]
     # returned id
     ret_roots = set()
     for b in sorted(add.live_blocks()):
@@ -36,7 +58,7 @@ def rule_set_id(ctx, cfg, F, backend):
     if ret_roots != want:
         R.violate("%s:returned-id-origin" % add.path, "the id returned by add does not come (only) from the counter: %s" % sorted(ret_roots), add.path, add.loc(0), config=cfg)
     else:
-        R.ok("add returns the counter's next()", add.loc(counter_nexts[0][0]), cfg)
+        R.ok("add returns the value of the monotone counter `%s`" % cffield if False else "add returns the value of the monotone counter `%s`" % cfield, add.loc(0), cfg)
     # stored id: unix -> PollEntry.id aggregate operand; in-process -> push onto the id vector
     stored = []
     for b in sorted(add.live_blocks()):
